@@ -143,3 +143,25 @@ Example check_readonly_repaired_on_witness :
   sidx (snd (check_all idx_schema false st_miss)) n_emp n_roles = [(r1, [i_a; i_b])] /\
   fst (check_all idx_schema false st_miss) = [mkReport KSMissing false].
 Proof. vm_compute. split; reflexivity. Qed.
+
+(* ---- the hypothesis wf_c09 of fix_convergent is needed (and the real code behaves like the model here:
+        corpus/store/c09_order.txt) ---- *)
+Definition ufk_schema : schema :=
+  [ mkSdef n_emp None false [(n_name, false); (n_boss, true)] []
+      [CUnique n_name false; CUnique n_boss true; CFkCons n_boss n_emp true; CFkCascade n_emp n_boss CascNone] [] ].
+
+Definition st_ufk : state :=
+  corrupt_all (run_txs ufk_schema 8 st_empty
+                 [ mkTx false [] [OCreate n_emp i_a false [(n_name, Some v_x); (n_boss, None)] []] false;
+                   mkTx false [] [OCreate n_emp i_b false [(n_name, Some v_y); (n_boss, Some i_a)] []] false ])
+              [XField n_emp i_b n_boss ghost; XUDel n_emp n_boss i_a; XUPut n_emp n_boss ghost i_b].
+
+(* b references the missing entity "g" (unique index consistent with that): the fk repair clears the field
+   after the unique index was checked, so the re-check finds a repairable stale index entry *)
+Example fix_not_convergent_without_wf :
+  wf_c09 ufk_schema = false /\
+  fst (check_all ufk_schema false st_ufk) = [mkReport KFkDangling false] /\
+  fst (check_all ufk_schema true st_ufk) = [mkReport KFkDangling true] /\
+  fst (check_all ufk_schema false (snd (check_all ufk_schema true st_ufk))) = [mkReport KUWrong false] /\
+  unfixable KUWrong = false.
+Proof. vm_compute. repeat split; reflexivity. Qed.
